@@ -837,7 +837,7 @@ def main():
                 disagreements.append({"case": fn, "ops": lines, "src": "corpus", "at": -1,
                                       "impl": "", "model": ""})
         jobs = []
-        mult = cfg.get("thorough_mult", 150) if tier == "thorough" else cfg.get("quick_mult", 3)
+        mult = cfg.get("thorough_mult", 500) if tier == "thorough" else cfg.get("quick_mult", 3)
         comps = list(cfg["components"]) + (list(cfg.get("thorough_components", [])) if tier == "thorough" else [])
         for ci, comp in enumerate(comps):
             kind, profiles, ncases, length = comp
